@@ -1,0 +1,92 @@
+//go:build verif
+
+package postgresql
+
+// Verification hooks (build tag `verif` only): accessors for unexported parts of the PostgreSQL
+// packet handling so that an external harness can drive the real parsing / rewriting code.
+// Nothing here changes behaviour; the file is not compiled without the tag.
+
+import (
+	"context"
+
+	"github.com/sirupsen/logrus"
+
+	"github.com/cossacklabs/acra/encryptor/base/config"
+)
+
+// VerifParseColumns runs parseColumns on the current packet body.
+func (packet *PacketHandler) VerifParseColumns(columnFormats []uint16) error {
+	return packet.parseColumns(columnFormats)
+}
+
+// VerifColumnCount returns the column count set by parseColumns.
+func (packet *PacketHandler) VerifColumnCount() int { return packet.columnCount }
+
+// VerifUpdateDataFromColumns runs updateDataFromColumns.
+func (packet *PacketHandler) VerifUpdateDataFromColumns() { packet.updateDataFromColumns(nil) }
+
+// VerifBody returns a copy of the current packet body (descriptionBuf).
+func (packet *PacketHandler) VerifBody() []byte { return packet.descriptionBufferCopy() }
+
+// VerifLengthBuf returns a copy of the 4-byte packet length buffer.
+func (packet *PacketHandler) VerifLengthBuf() []byte {
+	return append([]byte{}, packet.descriptionLengthBuf...)
+}
+
+// VerifMessageType returns the message type byte (0 for startup packets).
+func (packet *PacketHandler) VerifMessageType() byte { return packet.messageType[0] }
+
+// VerifFields returns the parsed fields of a Bind packet.
+func (p *BindPacket) VerifFields() (portal, statement string, paramFormats []uint16, paramValues [][]byte, resultFormats []uint16) {
+	return p.portal, p.statement, p.paramFormats, p.paramValues, p.resultFormats
+}
+
+// VerifFields returns the parsed fields of a Parse packet (name and query include the terminator).
+func (packet *ParsePacket) VerifFields() (name, query, paramsNum []byte, params [][]byte) {
+	ps := make([][]byte, len(packet.params))
+	for i, p := range packet.params {
+		ps[i] = p
+	}
+	return packet.name, packet.query, packet.paramsNum, ps
+}
+
+// VerifHandleRowDescription runs PgProxy.handleRowDescription (it uses only the context and the packet).
+func VerifHandleRowDescription(ctx context.Context, packet *PacketHandler, logger *logrus.Entry) error {
+	return (&PgProxy{}).handleRowDescription(ctx, packet, logger)
+}
+
+// VerifHandleParameterDescription runs PgProxy.handleParameterDescription.
+func VerifHandleParameterDescription(ctx context.Context, packet *PacketHandler, logger *logrus.Entry) error {
+	return (&PgProxy{}).handleParameterDescription(ctx, packet, logger)
+}
+
+// VerifReplaceOIDsInParsePackets runs replaceOIDsInParsePackets.
+func VerifReplaceOIDsInParsePackets(ctx context.Context, packet *PacketHandler, parse *ParsePacket, logger *logrus.Entry) error {
+	return replaceOIDsInParsePackets(ctx, packet, parse, logger)
+}
+
+// VerifAddPendingQuery registers a simple query as pending (what handleClientPacket does for 'Q').
+func (proxy *PgProxy) VerifAddPendingQuery(query string) error {
+	return proxy.protocolState.pendingQueryPackets.Add(newQueryPacket(query))
+}
+
+// VerifAddPendingExtendedQuery registers an extended-protocol query (Parse text + Bind) as pending.
+func (proxy *PgProxy) VerifAddPendingExtendedQuery(name, query string, bind *BindPacket) error {
+	prepared := NewPreparedStatement(name, query, nil)
+	return proxy.protocolState.pendingQueryPackets.Add(newExtendedQueryPacket(prepared, bind, &ExecutePacket{}))
+}
+
+// VerifHandleDatabasePacket runs handleDatabasePacket on a packet read from the database side.
+func (proxy *PgProxy) VerifHandleDatabasePacket(ctx context.Context, packet *PacketHandler, logger *logrus.Entry) error {
+	return proxy.handleDatabasePacket(ctx, packet, logger)
+}
+
+// VerifHandleClientPacket runs handleClientPacket on a packet read from the client side.
+func (proxy *PgProxy) VerifHandleClientPacket(ctx context.Context, packet *PacketHandler, logger *logrus.Entry) (bool, error) {
+	return proxy.handleClientPacket(ctx, packet, logger)
+}
+
+// VerifOnColumnDecryption runs onColumnDecryption (context set-up + subscriber chain) for one column.
+func (proxy *PgProxy) VerifOnColumnDecryption(ctx context.Context, i int, data []byte, binaryFormat bool, setting config.ColumnEncryptionSetting) ([]byte, error) {
+	return proxy.onColumnDecryption(ctx, i, data, binaryFormat, setting)
+}
